@@ -59,13 +59,18 @@ func (a *Act) noAliasOblige(instr ssa.Instruction, reach string, t types.Type, v
 
 // frameOblige: a write to (ref) must target memory allocated during the call or the modifies set.
 func (a *Act) frameOblige(instr ssa.Instruction, reach, ref, what string) {
+	a.frameObligeR(instr, reach, ref, "", "", what)
+}
+
+// frameObligeR: slots [lo,hi) of object ref are written (lo == "": unknown part of the object)
+func (a *Act) frameObligeR(instr ssa.Instruction, reach, ref, lo, hi, what string) {
 	g := a.g
 	if !g.checkFrame {
 		return
 	}
 	cond := fmt.Sprintf("(or (= %s 0) (>= %s %s))", ref, ref, g.entry.Next)
 	if g.modset != nil {
-		cond = fmt.Sprintf("(or (= %s 0) (>= %s %s) %s)", ref, ref, g.entry.Next, g.modset(ref))
+		cond = fmt.Sprintf("(or (= %s 0) (>= %s %s) %s)", ref, ref, g.entry.Next, g.modsetR(ref, lo, hi))
 	}
 	g.oblige("frame", a.srcDetail(instr), reach, cond, a.pos(instr.Pos()), what+" writes only memory allocated during the call or listed in modifies")
 }
@@ -238,7 +243,7 @@ func (a *Act) exec(instr ssa.Instruction, st *State, reach string, b *ssa.BasicB
 				a.safety("nil-deref", in, reach, fmt.Sprintf("(not (= (pref %s) 0))", p), "nil pointer dereference (store)")
 			}
 			if _, isGlobal := in.Addr.(*ssa.Global); !isGlobal {
-				a.frameOblige(in, reach, fmt.Sprintf("(pref %s)", p), "store")
+				a.frameObligeR(in, reach, fmt.Sprintf("(pref %s)", p), fmt.Sprintf("(poff %s)", p), fmt.Sprintf("(+ (poff %s) %d)", p, slots(in.Val.Type())), "store")
 			} else if g.checkFrame {
 				g.oblige("frame", a.srcDetail(in), reach, "false", a.pos(in.Pos()), "store to a package-level variable")
 			}
@@ -247,6 +252,15 @@ func (a *Act) exec(instr ssa.Instruction, st *State, reach string, b *ssa.BasicB
 			a.noAliasOblige(in, reach, in.Val.Type(), a.val(in.Val), "store")
 		}
 		a.store(st, in.Val.Type(), fmt.Sprintf("(pref %s)", p), fmt.Sprintf("(poff %s)", p), a.val(in.Val))
+		if tg := leafTag(in.Val.Type()); tg != 0 {
+			if _, isAlloc := in.Addr.(*ssa.Alloc); !isAlloc {
+				if _, isField := in.Addr.(*ssa.FieldAddr); isField {
+					// a struct field of basic type is never an element of an array of that basic type
+					g.assumeIf(reach, fmt.Sprintf("(sfield (pref %s) (poff %s))", p, p))
+				}
+				g.assumeIf(reach, fmt.Sprintf("(= (styp (pref %s) (poff %s)) %d)", p, p, tg))
+			}
+		}
 	case *ssa.TypeAssert:
 		a.typeAssert(in, st, reach)
 	case *ssa.Call:
@@ -825,7 +839,11 @@ func (a *Act) loadedWF(t types.Type, v string, st *State) string {
 func (g *Gen) heapValWF(t types.Type, v string, st *State) string {
 	switch u := t.Underlying().(type) {
 	case *types.Slice:
-		return fmt.Sprintf("(and (< (sref %s) %s) (= (sref %s) (sref %s)) (<= 0 (soff %s)) (<= 0 (sllen %s)) (<= (sllen %s) (scap %s)) (=> (= (sref %s) 0) (= (scap %s) 0)) (=> (> (sref %s) 0) (%s (rtype (sref %s)))))", v, st.Next, v, v, v, v, v, v, v, v, v, g.typePred("ar", u.Elem()), v)
+		typed := ""
+		if tg := leafTag(u.Elem()); tg != 0 {
+			typed = fmt.Sprintf(" (slTyped %s %d)", v, tg)
+		}
+		return fmt.Sprintf("(and (< (sref %s) %s) (= (sref %s) (sref %s)) (<= 0 (soff %s)) (<= 0 (sllen %s)) (<= (sllen %s) (scap %s)) (=> (= (sref %s) 0) (= (scap %s) 0)) (=> (> (sref %s) 0) (%s (rtype (sref %s))))%s)", v, st.Next, v, v, v, v, v, v, v, v, v, g.typePred("ar", u.Elem()), v, typed)
 	case *types.Pointer:
 		return fmt.Sprintf("(and (< (pref %s) %s) (=> (= (pref %s) 0) (= (poff %s) 0)) (=> (> (pref %s) 0) (%s (rtype (pref %s)))))", v, st.Next, v, v, v, g.typePred("pt", u.Elem()), v)
 	case *types.Map, *types.Chan:
@@ -998,4 +1016,12 @@ func sortedStrKeys(m map[string]string) []string {
 	}
 	sort.Strings(ks)
 	return ks
+}
+
+// leafTag: the slot type tag of a one-slot basic value (0: not a basic leaf). Distinct basic kinds never share a slot.
+func leafTag(t types.Type) int {
+	if b, ok := t.Underlying().(*types.Basic); ok && b.Kind() != types.String && b.Info()&types.IsUntyped == 0 {
+		return int(b.Kind()) + 1
+	}
+	return 0
 }
